@@ -4,7 +4,8 @@ Decided: the entry discipline of MutableFileNode (public operation =
 `return self._do_serialized(self._impl, ...)`), the shape of the serialiser's
 Deferred chain, the one-node-per-cap memo of NodeMaker and the rule that
 directory edits reach the grid only through node.modify (DESIGN.md section 5,
-C13)."""
+C13), plus the rule that every work-carrying callback hangs on the returned Deferred (node level C13.6,
+directory level C13.7; added after the mutation sweep)."""
 from sa.h import *
 
 EXPLANATION = (
@@ -26,9 +27,21 @@ EXPLANATION = (
     "self._node.modify(<modifier built on this dirnode>.modify) and returns that Deferred; no DirectoryNode code calls "
     "a writing or private method of the file node; (6) every function that runs inside the serialised region "
     "(the _impls, the MutableFileVersion operations they delegate to, and their callbacks) returns on every path the "
-    "Deferred of each piece of grid work it starts, so the serialiser really waits for the whole operation. "
+    "Deferred of each piece of grid work it starts, so the serialiser really waits for the whole operation; every "
+    "callback that starts grid work (nested def, lambda, or self.<method> of the same class) is registered on the "
+    "Deferred the enclosing function returns (directly, through a chain, or through a call whose Deferred is "
+    "returned), never left unattached or hung on another Deferred; (7) the same two conditions for the "
+    "DirectoryNode operations (the six mutators and set_uri/add_file/move_child_to): each returns on every path the "
+    "Deferred of every edit it starts (self._node.modify, or a mutator of this or a parameter directory), and "
+    "callbacks starting an edit hang on the returned Deferred. "
     "Undecided: fairness and ordering inside Twisted, nodes created by create_mutable_file (not memoised: outside "
-    "'obtained through the same capability string'), callers that take a MutableFileVersion and write through it.")
+    "'obtained through the same capability string'), callers that take a MutableFileVersion and write through it; "
+    "whether an operation that is correctly queued and awaited does the right thing (which servermap mode a retry "
+    "uses, whether the retry/backoff errback is present at all, read-only guards, the redundant-rename guard of "
+    "move_child_to, the I/M prefix of the memo key, blacklist wrapping) - value-level or other properties; edits "
+    "that stop an operation from starting any grid work (a deleted callback lambda, `return None` in place of the "
+    "work) are functional failures, not ordering failures, and are not reported unless they leave a work-carrying "
+    "named callback unattached.")
 TECHNIQUE = "static analysis: return-shape and who-may-call sweeps, Deferred registration model, CFG path rules, reaching definitions"
 
 MFN = "mutable.filenode:MutableFileNode"
@@ -349,27 +362,83 @@ def run(ctx: Context):
                   "every piece of grid work they start, directly or through their callbacks", expected=20) as r:
         _awaited_rule(r, idx)
 
+    # -- 7. directory operations cover the edits they start ---------------------------------
+    with ctx.rule("C13.7", "R2/E7", "DirectoryNode operations (mutators and the operations built on them) return, on every "
+                  "path, the Deferred of each directory edit they start; callbacks that start an edit hang on the returned "
+                  "Deferred", expected=9) as r:
+        _dirnode_awaited_rule(r, idx)
+
 
 # --------------------------------------------------------------- rule bodies
+def _grid_work(c):
+    """`c` is a call that starts grid work on the mutable file and returns its Deferred."""
+    if not (isinstance(c, ast.Call) and isinstance(c.func, ast.Attribute) and call_tail(c) in WORK_TAILS):
+        return False
+    if call_tail(c) in AMBIGUOUS_TAILS:
+        # file-like .read()/dict .update() are not grid work: only on the objects that carry the operation
+        recv = c.func.value
+        return isinstance(recv, ast.Name) and recv.id in WORK_RECEIVERS
+    return True
+
+
+def _dirnode_work(top):
+    """Calls that start a directory edit: self._node.modify(..) and the DirectoryNode mutators invoked on a
+    directory node (self, or a directory handed in as a parameter) - not the synchronous Adder.set_node."""
+    dirs = {"self"} | set(top.params)
+    tails = set(DIRNODE_MUTATORS) | set(DIRNODE_DELEGATORS)
+
+    def is_work(c):
+        if not (isinstance(c, ast.Call) and isinstance(c.func, ast.Attribute)):
+            return False
+        if call_name(c) == "self._node.modify":
+            return True
+        recv = c.func.value
+        return c.func.attr in tails and isinstance(recv, ast.Name) and recv.id in dirs
+    return is_work
+
+
+def _bodies(top):
+    bodies, stack = [top], [top]
+    while stack:
+        g = stack.pop()
+        for k, v in g.nested.items():
+            if not k.startswith("<lambda"):
+                bodies.append(v)
+                stack.append(v)
+    return bodies
+
+
 def _awaited_rule(r, idx):
     for q, names in AWAITED_IN.items():
         ci = idx.cls(q)
         for nm in names:
             top = idx.func(q + "." + nm)
             r.site(top, None, "awaited")
-            bodies = [top]
-            stack = [top]
-            while stack:
-                g = stack.pop()
-                for k, v in g.nested.items():
-                    if not k.startswith("<lambda"):
-                        bodies.append(v)
-                        stack.append(v)
-            for g in bodies:
-                _awaited_body(r, idx, top, g)
+            for g in _bodies(top):
+                _awaited_body(r, idx, top, g, _grid_work, "the serialised operation")
 
 
-def _awaited_body(r, idx, top, g):
+def _dirnode_awaited_rule(r, idx):
+    n_work = 0
+    for nm in DIRNODE_MUTATORS + tuple(DIRNODE_DELEGATORS):
+        top = idx.func(DN + "." + nm)
+        r.site(top, None, "directory operation")
+        is_work = _dirnode_work(top)
+        n_work += sum(1 for x in ast.walk(top.node) if is_work(x))
+        for g in _bodies(top):
+            _awaited_body(r, idx, top, g, is_work, "the directory operation")
+    if n_work < len(DIRNODE_MUTATORS) + len(DIRNODE_DELEGATORS):
+        raise AnchorVanished("DirectoryNode operations no longer start their edits through self._node.modify / "
+                             "the mutators (found %d edit calls)" % n_work)
+
+
+def _stmt_of(parent, x):
+    while x is not None and not isinstance(x, ast.stmt):
+        x = parent.get(id(x))
+    return x
+
+
+def _awaited_body(r, idx, top, g, is_work, what):
     cfg = g.cfg()
     rets = cfg.find(is_return)
     returned_names = set()
@@ -377,15 +446,7 @@ def _awaited_body(r, idx, top, g):
         if n.ast.value is not None:
             returned_names |= {x.id for x in ast.walk(n.ast.value) if isinstance(x, ast.Name)}
     work = []
-
-    def is_work(c):
-        if not (isinstance(c, ast.Call) and isinstance(c.func, ast.Attribute) and call_tail(c) in WORK_TAILS):
-            return False
-        if call_tail(c) in AMBIGUOUS_TAILS:
-            # file-like .read()/dict .update() are not grid work: only on the objects that carry the operation
-            recv = c.func.value
-            return isinstance(recv, ast.Name) and recv.id in WORK_RECEIVERS
-        return True
+    attached = []          # registration calls that hang a work-carrying callback on the returned Deferred
 
     def scan(body_root, in_lambda):
         for x in own_nodes(body_root):
@@ -394,16 +455,103 @@ def _awaited_body(r, idx, top, g):
                 for c in own_nodes(x.body):
                     if is_work(c):
                         if not _in_value_position(x.body, c):
-                            r.violation(g, g.loc(c), "%s: a callback starts %s but does not return its Deferred; the "
-                                        "serialised operation would be reported finished while that work is still running" % (
-                                            short(top), call_name(c) or call_tail(c)))
+                            r.violation(g, g.loc(c), "%s: a callback starts %s but does not return its Deferred; %s "
+                                        "would be reported finished while that work is still running" % (
+                                            short(top), call_name(c) or call_tail(c), what))
             elif is_work(x):
                 work.append(x)
     for st in g.body:
         if isinstance(st, (ast.FunctionDef, ast.AsyncFunctionDef, ast.ClassDef)):
             continue          # nested defs are bodies of their own
         scan(st, False)
-    if not work and g is not top:
+    # -- callbacks that carry work must hang on the Deferred this function returns ---------------------------
+    # carriers: nested defs / lambdas of g whose body (at any depth) starts work
+    def_carriers = {k: v for k, v in g.nested.items() if not k.startswith("<lambda")
+                    and any(is_work(x) for x in ast.walk(v.node))}
+    own = list(func_own_nodes(g))
+    lam_carriers = {id(x): x for x in own if isinstance(x, ast.Lambda) and any(is_work(y) for y in ast.walk(x.body))}
+    meth_carriers = {}
+    if top.cls is not None:
+        for x in own:
+            if isinstance(x, ast.Attribute) and isinstance(x.value, ast.Name) and x.value.id == "self" \
+                    and isinstance(x.ctx, ast.Load) and x.attr not in meth_carriers:
+                m = top.cls.lookup(x.attr)
+                meth_carriers[x.attr] = m if (m is not None and hasattr(m, "node")
+                                              and any(is_work(y) for y in ast.walk(m.node))) else None
+        meth_carriers = {k: v for k, v in meth_carriers.items() if v is not None}
+    if def_carriers or lam_carriers or meth_carriers:
+        parent = {}
+        for x in own:
+            if isinstance(x, (ast.FunctionDef, ast.AsyncFunctionDef, ast.ClassDef, ast.Lambda)):
+                continue
+            for ch in ast.iter_child_nodes(x):
+                parent[id(ch)] = x
+        defs = all_defs(g)
+
+        def carrier_of(a, depth=3):
+            """The work-carrying callable that expression `a` denotes (through local name copies), else None."""
+            if isinstance(a, ast.Lambda):
+                return ("<lambda>", a) if id(a) in lam_carriers else None
+            if isinstance(a, ast.Attribute) and isinstance(a.value, ast.Name) and a.value.id == "self":
+                return ("self." + a.attr, meth_carriers[a.attr].node) if a.attr in meth_carriers else None
+            if isinstance(a, ast.Name):
+                if a.id in def_carriers and not any(isinstance(dv, ast.expr) for dv in defs.get(a.id, [])):
+                    return (a.id, def_carriers[a.id].node)
+                if depth > 0:
+                    for dv in defs.get(a.id, []):
+                        if dv is not None:
+                            c = carrier_of(dv, depth - 1)
+                            if c is not None:
+                                return c
+            return None
+        used = set()
+        for x in own:
+            if not isinstance(x, ast.Call):
+                continue
+            if isinstance(x.func, ast.Name):
+                cr = carrier_of(x.func)
+                if cr is not None:              # called on the spot: the call is the work
+                    used.add(id(cr[1]))
+                    if x not in work:
+                        work.append(x)
+            for a in list(x.args) + [k.value for k in x.keywords]:
+                cr = carrier_of(a)
+                if cr is None:
+                    continue
+                used.add(id(cr[1]))
+                if isinstance(x.func, ast.Attribute) and x.func.attr in ("addCallback", "addErrback", "addBoth", "addCallbacks"):
+                    base = x.func.value
+                    while isinstance(base, ast.Call) and isinstance(base.func, ast.Attribute) and base.func.attr in (
+                            "addCallback", "addErrback", "addBoth", "addCallbacks"):
+                        base = base.func.value
+                    ok = isinstance(base, ast.Name) and base.id in returned_names
+                    if not ok:
+                        st = _stmt_of(parent, x)
+                        if isinstance(st, ast.Return) and st.value is not None and _in_chain(st.value, x):
+                            ok = True
+                        elif isinstance(st, ast.Assign) and _in_chain(st.value, x) and any(
+                                isinstance(t, ast.Name) and t.id in returned_names for t in st.targets):
+                            ok = True
+                    if ok:
+                        attached.append(x)
+                    r.require(ok, g, g.loc(x), "%s hangs the callback %s, which starts grid work, on %s - not on the Deferred "
+                              "it returns: %s would be reported finished (and the next one started) while that work is "
+                              "still running" % (short(g), cr[0], src(g, base), what))
+                elif x not in work:
+                    work.append(x)              # e.g. maybeDeferred(cb, ..): that call's Deferred carries the work
+        for k, v in def_carriers.items():
+            if id(v.node) not in used:
+                r.violation(g, g.loc(v.node), "%s defines the callback %s, which starts grid work, but never attaches it to "
+                            "the Deferred it returns: the work is either never done or runs outside %s" % (short(g), k, what))
+        for k, lam in lam_carriers.items():
+            if k not in used:
+                st = _stmt_of(parent, lam)
+                if isinstance(st, ast.Return) or (isinstance(st, ast.Assign) and any(
+                        isinstance(t, ast.Name) and t.id in defs for t in st.targets)):
+                    continue                    # a callable handed back / a named lambda accounted for through its name
+                r.violation(g, g.loc(lam), "%s builds a callback that starts grid work but does not attach it to the Deferred "
+                            "it returns" % short(g))
+    if not work and not attached and g is not top:
         return
     for c in work:
         ok = False
@@ -416,21 +564,35 @@ def _awaited_body(r, idx, top, g):
                 if isinstance(st, ast.Assign) and st.value is not None and _in_value_position(st.value, c):
                     if any(isinstance(t, ast.Name) and t.id in returned_names for t in st.targets):
                         ok = True
-        r.require(ok, g, g.loc(c), "%s starts %s but does not return its Deferred: the serialised operation would be "
+        r.require(ok, g, g.loc(c), "%s starts %s but does not return its Deferred: %s would be "
                   "reported finished (and the next one started) while that work is still running" % (
-                      short(g), call_name(c) or call_tail(c)))
-    if work:
+                      short(g), call_name(c) or call_tail(c), what))
+    if work or attached:
         def valued_return(n):
             return is_return(n) and n.ast.value is not None and not (isinstance(n.ast.value, ast.Constant)
                                                                       and n.ast.value.value is None)
         r.count(len(cfg.nodes))
         for (n, w) in find_path_avoiding(cfg, lambda n: n.kind == "exit", gate_node=valued_return):
             # a path that started no work may end without a value (e.g. "no changes": nothing to wait for)
-            started = any(any(cc is c for cc in node_calls(x)) for (x, _l) in w.path for c in work if x.ast is not None)
+            started = any(any(cc is c for cc in node_calls(x)) for (x, _l) in w.path for c in work + attached
+                          if x.ast is not None)
             if started:
                 r.violation(g, g.loc(), "%s can finish without returning the Deferred of the work it started "
                             "(path: %s)" % (short(g), w.brief()), w)
                 break
+
+
+def _in_chain(expr, call):
+    """`call` is `expr` itself or a link of the .addCallback/.addErrback/.addBoth chain whose value `expr` is."""
+    e = expr
+    while isinstance(e, ast.Call):
+        if e is call:
+            return True
+        if isinstance(e.func, ast.Attribute):
+            e = e.func.value
+        else:
+            return False
+    return False
 
 
 def _in_value_position(expr, call):
